@@ -7,6 +7,8 @@ import time
 
 HERE = os.path.dirname(os.path.abspath(__file__))
 ROOT = os.path.dirname(HERE)
+# evidence and replay files of self-test runs (thorough tier, seeded changes) go elsewhere
+OUT = os.environ.get('VERIF_OUT') or ROOT
 
 
 def _sha(s):
@@ -14,7 +16,7 @@ def _sha(s):
 
 
 def write_replay(prop, failure, unit_run, witness):
-    d = os.path.join(ROOT, 'replay', prop)
+    d = os.path.join(OUT, 'replay', prop)
     os.makedirs(d, exist_ok=True)
     p = os.path.join(d, _sha(failure['id']) + '.json')
     rec = {
@@ -213,8 +215,8 @@ def decide_and_report(prop, tier, seed, runs, undecided, known, index, wall, ext
     }
     if extra.get('thorough'):
         ev['coverage']['thorough'] = extra['thorough']
-    os.makedirs(os.path.join(ROOT, 'evidence'), exist_ok=True)
-    with open(os.path.join(ROOT, 'evidence', prop + '.json'), 'w') as fh:
+    os.makedirs(os.path.join(OUT, 'evidence'), exist_ok=True)
+    with open(os.path.join(OUT, 'evidence', prop + '.json'), 'w') as fh:
         json.dump(ev, fh, indent=1)
     for ln in lines:
         print(ln)
